@@ -293,3 +293,17 @@ Theorem C15_portal_landed_after_loop_end_refuted :
     forall ops', calls (final step s ops') 0 = calls s 0.
 Proof. exact portal_landed_after_loop_end_refuted. Qed.
 Print Assumptions C15_portal_landed_after_loop_end_refuted.
+
+(* ---- 8. F47 (repair dbf6f53): the exception delivered does not depend on the exception's truth value.  Exceptions
+        are integer codes here (e_falsy = 4 is the distinguished one): C15_portal_future_single_assignment already holds for
+        every code; for start_task, a failure before started() reaches start_task's caller as the task's own exception.
+        The unwrapping in the caller's thread (Future.result() vs future_outcome()) is outside the model: harness monitors
+        "call returned None although the callable raised" / "start_task raised RuntimeError instead of the task's exception" ---- *)
+Theorem C15_portal_start_task_failure_propagated : forall f4 fc s k, reach f4 fc s ->
+  c_kind (calls s k) = KStart -> donep (c_phase (calls s k)) = true -> c_started (calls s k) = None ->
+  c_status (calls s k) = match c_fut (calls s k) with
+                         | CExc e => CExc e | CCancelled => CCancelled | _ => CExc e_nostart end /\
+  (forall e, c_outcome (calls s k) = Some (ORaise e) -> c_fcancel (calls s k) = false ->
+     c_fut (calls s k) = CExc e /\ c_status (calls s k) = CExc e).
+Proof. exact portal_start_task_failure_propagated. Qed.
+Print Assumptions C15_portal_start_task_failure_propagated.
